@@ -62,6 +62,10 @@ func primitiveProcessor[T p.ZogPrimitive](ctx *p.SchemaCtx, tests []Test, postTr
 		// only run posttransforms on success
 		if !ctx.HasErrored() {
 			for _, fn := range postTransforms {
+				// only while no issue exists: a transform may have reported one itself (ctx.AddIssue) without returning an error
+				if ctx.HasErrored() {
+					return
+				}
 				err := fn(destPtr, ctx)
 				if err != nil {
 					// reported to the execution directly: a Catch value stands in for a missing, un-coercible or invalid value, not for the error of a transform
@@ -129,6 +133,10 @@ func primitiveValidator[T p.ZogPrimitive](ctx *p.SchemaCtx, tests []Test, postTr
 		// only run posttransforms on success
 		if !ctx.HasErrored() {
 			for _, fn := range postTransforms {
+				// only while no issue exists: a transform may have reported one itself (ctx.AddIssue) without returning an error
+				if ctx.HasErrored() {
+					return
+				}
 				err := fn(valPtr, ctx)
 				if err != nil {
 					// reported to the execution directly: a Catch value stands in for a missing, un-coercible or invalid value, not for the error of a transform
